@@ -62,3 +62,6 @@ Print Assumptions c15_id_preimage_inj.
 Print Assumptions c15_dim_preimage_inj.
 Print Assumptions c15_order_independent.
 Print Assumptions c15_id_iff.
+
+(* ---- the executable spec written from the property text holds of the model, for ALL histories (Proofs/C15Spec.v) *)
+Require Export PV.Proofs.C15SpecPinned.
